@@ -12,12 +12,15 @@ MANIFEST = {
             "bad_solution_count: one rejection theorem per defect listed by the property (for all transactions, any position, exact boundaries), "
             "acceptance of every transaction without a listed defect whose serialisation is at most MAX_TX_SIZE, purity, coinbase exemption; "
             "per-coin MAX_MONEY/MAX_TX_SIZE regenerated from the classes; model tied to the code by differential correspondence through "
-            "Tx.check/is_coinbase/bad_solution_count of the five Tx classes and by an independent Python reference of the property's list.",
+            "Tx.check/is_coinbase/bad_solution_count of the five Tx classes and by an independent Python reference of the property's list. "
+            "Tx.coinbase_tx / TxIn.coinbase_tx_in are modelled (Model/CoinbaseTx.lean, C20_coinbase_tx: a coinbase, never unsigned, accepted exactly for "
+            "script lengths 2..100 and amounts 0..MAX_MONEY).",
     "note": "Size rule: the code measures the witness-including serialisation; the property leaves transactions whose stripped size is within and total "
             "size above the limit undetermined, and so does the oracle. Object identity of TxIn (first duplicate test) is modelled by an id per position.",
     "technique": "Lean 4 proof (induction over an executable model) + differential correspondence model vs implementation + reference oracle",
 }
-RULE = ("ops check_hist (histories on one object incl. the 1,000,000-byte boundary crossed by growing a script in place); check_tx/is_coinbase/bad_solution_count on transactions given field by field; boundary corpus (values 0/MAX/MAX+1 per coin, cumulative totals, "
+RULE = ("op cb_tx (Tx.coinbase_tx for compressed/uncompressed/hybrid SEC keys x coinbase script lengths 0..3,99..102 x amounts 0/MAX/MAX+1/-1 per coin: "
+        "fields, check(), is_coinbase(), bad_solution_count()); ops check_hist (histories on one object incl. the 1,000,000-byte boundary crossed by growing a script in place); check_tx/is_coinbase/bad_solution_count on transactions given field by field; boundary corpus (values 0/MAX/MAX+1 per coin, cumulative totals, "
         "duplicates at every pair of positions, coinbase script lengths 0..3,99..102, exact null vs zero-hash-other-index, sizes around 1,000,000) + seeded "
         "random single-defect and defect-free transactions; distinct = distinct op line; trivial = none")
 ASSUMPTIONS = ["integer fields other than output values are within their wire ranges when the size rule is reached (otherwise struct.error leaves check(); modelled and compared, outside the property)",
@@ -67,9 +70,28 @@ def _snapshot(tx):
     return (b, fields_of(tx), [id(t) for t in tx.txs_in], [id(t) for t in tx.txs_out], list(tx.unspents))
 
 
+def _cb_tx(a):
+    T = txlib.TX(a[1])
+    sec, cb = (b"" if a[2] == "-" else bytes.fromhex(a[2])), (b"" if a[4] == "-" else bytes.fromhex(a[4]))
+    tx = T.coinbase_tx(sec, int(a[3]), cb, version=int(a[5]), lock_time=int(a[6]))
+    try:
+        tx.check()
+        verdict = "ok"
+    except ValidationFailureError as e:
+        verdict = "err:" + TAGS.get(str(e), "unknown_message")
+    except Exception as e:  # noqa: BLE001
+        verdict = "err:raised:" + type(e).__name__
+    return "ok %s %s %d %d" % (txlib.dump_tx(tx), verdict, 1 if tx.is_coinbase() else 0, tx.bad_solution_count())
+
+
 def impl(op: str) -> str:
     a = op.split(" ")
     k = a[0]
+    if k == "cb_tx":
+        try:
+            return _cb_tx(a)
+        except Exception as e:  # noqa: BLE001
+            return "err " + type(e).__name__
     if k == "check_hist":
         try:
             res, why = txlib.run_history(a[1], parse_fields(a[2]), a[3].split("!"))
@@ -250,7 +272,29 @@ def _hist_reference(coin, f, steps, out):
     return None
 
 
+def _cb_oracle(a, out):
+    """the property on the implementation alone: coinbase_tx builds a coinbase; check() accepts it exactly for script
+    lengths 2..100 and amounts 0..MAX_MONEY; it is never counted as unsigned; the whole amount goes to `<sec> OP_CHECKSIG`"""
+    if not out.startswith("ok "):
+        return "coinbase_tx raised for a SEC key: " + out
+    _ok, fields, verdict, is_cb, bad = out.split(" ")
+    sec, cb = (b"" if a[2] == "-" else bytes.fromhex(a[2])), (b"" if a[4] == "-" else bytes.fromhex(a[4]))
+    v, lock, ins, outs = txlib.parse_fields(fields)
+    if is_cb != "1" or len(ins) != 1 or ins[0][0] != ZERO32 or ins[0][1] != NULL_INDEX or ins[0][2] != cb:
+        return "coinbase_tx did not build a coinbase input carrying the given bytes"
+    if bad != "0":
+        return "a coinbase transaction is counted as having unsigned inputs"
+    if outs != [(int(a[3]), bytes([len(sec)]) + sec + b"\xac")] or v != int(a[5]) or lock != int(a[6]):
+        return "coinbase_tx does not pay the amount to <sec> OP_CHECKSIG (or changed version / lock time)"
+    good = 2 <= len(cb) <= 100 and 0 <= int(a[3]) <= REF_MAX_MONEY[a[1]]
+    if good != (verdict == "ok"):
+        return "check() of the built coinbase: %s, but script length %d / amount %d" % (verdict, len(cb), int(a[3]))
+    return None
+
+
 def oracle(op: str, out: str):
+    if op.startswith("cb_tx "):
+        return _cb_oracle(op.split(" "), out)
     """the property evaluated on the implementation alone; an exception escaping the implementation while a round trip is
     evaluated is a failure of the property (every direct call is on inputs the property covers)"""
     try:
@@ -266,6 +310,10 @@ def trivial(op: str) -> bool:
 def neighbours(op, rng):
     a = op.split(" ")
     if a[0] == "check_hist":
+        return
+    if a[0] == "cb_tx":
+        for n in (1, 2, 100, 101):
+            yield " ".join(a[:4] + ["ab" * n] + a[5:])
         return
     coin = a[1]
     v, lock, ins, outs = parse_fields(a[2])
@@ -321,7 +369,32 @@ def sized_fields(total, with_witness=0):
     return (1, 0, [nin(H(1), 0, b"\x51" * L, NULL_INDEX, wit)], [(5, b"\x51")])
 
 
+def gen_coinbase(ctx, emit):
+    rng = ctx.rng
+
+    def sec():
+        c = rng.randrange(3)
+        if c == 0:
+            return bytes([rng.choice([2, 3])]) + rng.randbytes(32)
+        if c == 1:
+            return b"\x04" + rng.randbytes(64)
+        return bytes([rng.choice([6, 7])]) + rng.randbytes(64)
+    for coin in COINS:
+        mm = REF_MAX_MONEY[coin]
+        for n in (0, 1, 2, 3, 99, 100, 101, 102):
+            emit("cb_tx %s %s %d %s 1 0" % (coin, sec().hex(), 50 * COIN, rng.randbytes(n).hex() or "-"))
+        for val in (0, 1, mm - 1, mm, mm + 1, -1, 2 ** 63):
+            emit("cb_tx %s %s %d %s 1 0" % (coin, sec().hex(), val, rng.randbytes(4).hex()))
+        # a decimal-looking key: every hex digit of the SEC is 0..9 (must still be pushed as data)
+        emit("cb_tx %s %s %d %s 2 7" % (coin, (b"\x02" + bytes([0x12, 0x34, 0x56, 0x78] * 8)).hex(), 1, "abcd"))
+        for _ in range(ctx.n(40, 2000)):
+            emit("cb_tx %s %s %d %s %d %d" % (coin, sec().hex(), rng.choice([0, 50 * COIN, rng.randrange(mm + 1), mm + rng.randrange(1, 10 ** 6)]),
+                                              rng.randbytes(rng.choice([0, 1, 2, 4, 50, 100, 101, rng.randrange(0, 120)])).hex() or "-",
+                                              rng.choice([1, 2, 0, 2 ** 32 - 1]), rng.choice([0, 1, 2 ** 32 - 1, rng.randrange(2 ** 32)])))
+
+
 def gen(ctx, emit):
+    gen_coinbase(ctx, emit)
     rng = ctx.rng
 
     def E(coin, f, ids=None, kinds=("check_tx",)):
